@@ -160,6 +160,28 @@ TABLE = {
             {"driver": "epoll", "required_clauses": ["blocking-mode-restored"]},
         ],
     },
+    "C18": {
+        "level": "model_checking",
+        "rule": ("every history up to depth 5 (quick) / 7 (thorough) over {child event, event on a replaced child's handle, remove / replace(ping child) / replace(timer child) / map from inside the parent's process_events, "
+                 "the same from outside followed by update(), parent disable / enable / update / remove, dispatch} x every child post-action in {Continue, Reregister, Disable, Remove} (one deviation each), starting from "
+                 "From<T> with a ping child, From<T> with a timer child, and Default. states = distinct complete choice sequences; non-trivial = a child callback ran and a child returned a non-Continue action"),
+        "assumptions": SEQ_ASSUME + ["the documented protocol is followed: a re-registration is requested after every change; two remove/replace calls without a re-registration in between are not generated",
+                                     "whether a child that disabled itself is re-registered by a later register() of the parent is taken from the implementation (statement is silent)",
+                                     "alternation of the child's register/unregister is only demanded while the parent's own register/unregister calls alternate (the loop unregisters a disabled parent again on remove)",
+                                     "the parent registers its control ping before the TransientSource so that sibling sub-ids never shift (that hazard is C01's)"],
+        "drivers": [
+            {"driver": "transient", "required_clauses": ["transient", "change-in-process-events", "change-from-outside"]},
+        ],
+    },
+    "C19": {
+        "level": "model_checking",
+        "rule": ("every sequence up to depth 4 (quick) / 5 (thorough) over {Signals::new(S), add_signals(S), remove_signals(S), set_signals(S) for every S subset of {USR1, USR2, WINCH}, raise(sig), dispatch, drop} in a single-threaded "
+                 "process with counting handlers installed; after every call the thread's signal mask, the kernel's pending set and the handler counters are compared with the model. states = distinct complete sequences; non-trivial = at least one signal was delivered to the callback"),
+        "assumptions": ["single-threaded process (the sequential engines never spawn threads)", "standard signals coalesce; sender information is checked for raise() from the same process only"],
+        "drivers": [
+            {"driver": "signals", "required_clauses": ["mask", "signal-delivery", "drop-unblocks"]},
+        ],
+    },
     "C20": {
         "level": "exploration",
         "rule": ("every (generation, sub-id) pair (2^32 of them) for each boundary slot id is pushed through the real "
